@@ -32,6 +32,7 @@ class Census:
         self._sizes = ()
         self.items = []      # (owner dict/obj, name, label)
         self.caches = []     # lru_cache wrappers
+        self.mutables = []   # mutable default arguments / closure cells of ampycloud functions
         self.rebuild()
 
     # -- enumeration -------------------------------------------------------------------------
@@ -45,7 +46,7 @@ class Census:
     def rebuild(self):
         mods = self._mods()
         self._nmods = len(mods)
-        self.items, self.caches = [], []
+        self.items, self.caches, self.mutables = [], [], []
         seen_cls = set()
         for mod in mods:
             mname = mod.__name__
@@ -55,13 +56,18 @@ class Census:
                 if hasattr(val, 'cache_info') and callable(val):
                     self.caches.append((f'{mname}.{name}', val))
                 if isinstance(val, types.FunctionType):
-                    if getattr(val, '__module__', '') == mname and val.__dict__:
-                        self.items.append((val.__dict__, None, f'{mname}.{name}.__dict__'))
+                    if getattr(val, '__module__', '') == mname:
+                        self._add_function(val, f'{mname}.{name}')
                     continue
                 if isinstance(val, type):
                     if getattr(val, '__module__', '') == mname and val not in seen_cls:
                         seen_cls.add(val)
                         for an, av in list(vars(val).items()):
+                            fn = av.__func__ if isinstance(av, (staticmethod, classmethod)) \
+                                else (av.fget if isinstance(av, property) else av)
+                            if isinstance(fn, types.FunctionType):
+                                self._add_function(fn, f'{mname}.{val.__name__}.{an}')
+                                continue
                             if an.startswith('__') and an.endswith('__'):
                                 continue
                             if an == '_abc_impl' or callable(av) or isinstance(av, _SKIP_TYPES):
@@ -75,15 +81,38 @@ class Census:
                 self.items.append((mod, name, f'{mname}.{name}'))
         self._sizes = tuple(len(vars(m)) for m in mods)
 
+    def _add_function(self, fn, label):
+        """Places where a function can hide state: attributes, mutable defaults, closure cells
+        (following functools.wraps chains)."""
+        seen = set()
+        while isinstance(fn, types.FunctionType) and id(fn) not in seen:
+            seen.add(id(fn))
+            if fn.__dict__:
+                self.items.append((fn.__dict__, None, f'{label}.__dict__'))
+            for k, dflt in enumerate(fn.__defaults__ or ()):
+                if isinstance(dflt, (dict, list, set)):
+                    self.mutables.append((dflt, f'{label}.__defaults__[{k}]'))
+            for k, dflt in (fn.__kwdefaults__ or {}).items():
+                if isinstance(dflt, (dict, list, set)):
+                    self.mutables.append((dflt, f'{label}.__kwdefaults__[{k}]'))
+            for k, cell in enumerate(fn.__closure__ or ()):
+                try:
+                    cont = cell.cell_contents
+                except ValueError:
+                    continue
+                if isinstance(cont, (dict, list, set)):
+                    self.mutables.append((cont, f'{label}.__closure__[{k}]'))
+            fn = getattr(fn, '__wrapped__', None)
+
     def labels(self):
         return [lab for _, _, lab in self.items]
 
     # -- fingerprint -------------------------------------------------------------------------
     @staticmethod
     def _val_fp(val):
-        if isinstance(val, (dict, list, set)):
+        if type(val) in (dict, list, set):      # plain containers only (not e.g. RcParams)
             try:
-                return (id(val), len(val), hash(repr(val)))
+                return (id(val), len(val), hash(repr(val)) if len(val) <= 64 else 0)
             except Exception:
                 return (id(val), len(val))
         return id(val)
@@ -105,6 +134,16 @@ class Census:
                 out.append(tuple(fn.cache_info()))
             except Exception:
                 pass
+        for obj, _ in self.mutables:
+            try:
+                out.append((len(obj), hash(repr(obj))))
+            except Exception:
+                out.append(len(obj))
+        # interpreter-wide switches of the libraries underneath
+        import warnings
+        out.append((len(warnings.filters), hash(repr(warnings.filters[:8]))))
+        out.append(hash(repr(sorted(np.geterr().items()))))
+        out.append(tuple(lg.level for lg in self._loggers()))
         if rng:
             st = np.random.get_state(legacy=True)
             out.append((hash(st[1].tobytes()), st[2], st[3], st[4]))
@@ -117,8 +156,16 @@ class Census:
             out.append(tuple(plt.get_fignums()))
         return tuple(out)
 
+    def _loggers(self):
+        if getattr(self, '_lgs', None) is None or len(self._lgs[0]) != len(self._modlist):
+            self._lgs = (list(self._modlist),
+                         [logging.getLogger()] + [logging.getLogger(m.__name__)
+                                                  for m in self._modlist])
+        return self._lgs[1]
+
     def named_fingerprint(self):
         fp = self.fingerprint()
         labs = self.labels() + [f'cache:{n}' for n, _ in self.caches] + \
+            [lab for _, lab in self.mutables] + ['warnings.filters', 'np.geterr', 'log levels'] + \
             ['np.random', 'random', 'cwd'] + (['rcParams', 'fignums'] if self.with_mpl else [])
         return dict(zip(labs, fp))
